@@ -10,6 +10,7 @@ from __future__ import annotations
 import json
 
 from .. import kernels, kruns, problems
+from ..kernels import RealWorker
 from ..core import Check, Driver
 
 
@@ -44,6 +45,9 @@ def phantoms(raw: kernels.Raw, support: set):
             if pre not in ok:
                 bad.append((l, list(pre)))
     return bad
+
+
+WORKER = RealWorker()
 
 
 def run(chk: Check, drv: Driver):
@@ -108,7 +112,7 @@ def run(chk: Check, drv: Driver):
                 dims = tuple(sizes[i] for i in t.indexes)
                 ins[name] = (problems.random_input(rng, dims, rng.choice([0.0, 0.2, 0.5])), dims)
             cases.append((sizes, ins))
-        res = kernels.in_fork(lambda: kernels.run_real(pr.text, pr.fs, [ins for _, ins in cases], "llvm"), timeout=60)
+        res = WORKER.run(pr.text, pr.fs, [ins for _, ins in cases], "llvm", timeout=60)
         if res[0] != "ok":
             chk.violation(f"real kernel {res[0]}: {res[1:3]}", pr.case(*cases[0]))
             continue
